@@ -174,12 +174,14 @@ func item(content int, idx []int) *explore.Item {
 	return &explore.Item{Name: name, Bound: -1, MaxSteps: 4000, Body: func(x *explore.Exec) {
 		// run A: each query alone, no batching context
 		ref := newEnv(content)
+		x.Cleanup(ref.fdb.Close)
 		want := make([]outcome, len(idx))
 		for n, i := range idx {
 			want[n] = ref.runQuery(context.Background(), fs[i])
 		}
 		// run B: all queries concurrently under one batching context
 		e := newEnv(content)
+		x.Cleanup(e.fdb.Close)
 		ctx := batch.WithBatching(context.Background())
 		got := make([]outcome, len(idx))
 		done := make([]bool, len(idx))
